@@ -158,7 +158,9 @@ pub fn verify_rejects_tamper(M: usize, F: usize, A: usize) {
     kani::cover!(which == 1, "other key explored");
 }
 
-/// [C02] bytes moved across the footer/assertion boundary are rejected
+/// [C02] bytes moved across the footer/assertion boundary are rejected. Both shifted splits are tried one after the other with
+/// concrete lengths (verification makes no model call that adds a memo-table entry, so the second call is as cheap as the first;
+/// a symbolic split makes the slice lengths symbolic and cost 10 min of solver time).
 pub fn verify_rejects_boundary_shift(M: usize) {
     let T = M + SIG;
     let seed: [u8; 32] = kani::any();
@@ -167,13 +169,16 @@ pub fn verify_rejects_boundary_shift(M: usize) {
     let fa: [u8; 2] = kani::any();
     let (scalar, prefix) = vspec::v4::ed25519_expand(&seed);
     let mut tokb = [0u8; TX];
-    let tok = &mut tokb[..T];
-    vspec::v4::public_sign(&scalar, &prefix, msg, b"", &fa[..1], &fa[1..], tok);
+    // signed with footer = fa[..1], assertion = fa[1..]
+    vspec::v4::public_sign(&scalar, &prefix, msg, b"", &fa[..1], &fa[1..], &mut tokb[..T]);
     let pk = <V4 as SealingVersion<Public>>::unsealing_key(&sk_of(&seed));
-    let split: usize = kani::any();
-    kani::assume(split <= 2 && split != 1);
-    let r = <V4 as UnsealingVersion<Public>>::unseal(&pk, "", tok, &fa[..split], &fa[split..]);
-    vassert!(r.is_err(), "[C02] bytes moved across the footer/assertion boundary are rejected");
+    let mut tok2b = tokb;
+    let r0 = <V4 as UnsealingVersion<Public>>::unseal(&pk, "", &mut tokb[..T], &fa[..0], &fa[0..]).is_err();
+    let r2 = <V4 as UnsealingVersion<Public>>::unseal(&pk, "", &mut tok2b[..T], &fa[..2], &fa[2..]).is_err();
+    vcheck_all!(
+        (r0, "[C02] bytes moved across the footer/assertion boundary are rejected (footer emptied into the assertion)"),
+        (r2, "[C02] bytes moved across the footer/assertion boundary are rejected (assertion moved into the footer)"),
+    );
 }
 
 /// [C04]/[C12] payloads around the minimum length: no panic, too short => InvalidToken
